@@ -206,17 +206,25 @@ class TaskRunner:
         for target in target_list:
             project.check_target(target)
 
-        # Calculate all dependencies:
-        # TODO: make this understandable:
-        target_list = set.union(
-            *[project.dependencies(t) for t in target_list]
-        ).union(set(target_list))
+        # Determine the order: each target after all of its dependencies
+        # (depth first post order). Sorting with a comparison function does
+        # not work, since unrelated targets cannot be compared.
+        target_names = []
+
+        def visit(target_name):
+            if target_name not in target_names:
+                target = project.get_target(target_name)
+                for dependency in sorted(target.dependencies):
+                    visit(dependency)
+                target_names.append(target_name)
+
+        for target_name in target_list:
+            visit(target_name)
 
         # Lookup actual targets:
         target_list = [
-            project.get_target(target_name) for target_name in target_list
+            project.get_target(target_name) for target_name in target_names
         ]
-        target_list.sort()
 
         self.logger.info(f"Target sequence: {target_list}")
 
